@@ -241,6 +241,17 @@ func check(c Case, o *stats.Obs) error {
 			o.Key = "decoder-wrote-to-buffer"
 			return fmt.Errorf("decoding a type %d message from a sub-slice changed the caller's buffer behind the frame: before %x after %x", typ, orig, big)
 		}
+		// the caller receives the next frame into the same storage: the decode must be of the bytes that are
+		// there now
+		reuse := append([]byte{}, frame...)
+		if _, err := decodeDirect(reuse, typ, lv); err == nil && len(nf) == len(reuse) {
+			copy(reuse, nf)
+			f3, err := decodeDirect(reuse, typ, lv)
+			if err != nil || f3.x != next.X || f3.station != next.StationID || f3.z != next.Z {
+				o.Key = "reused-buffer"
+				return fmt.Errorf("a receive buffer is decoded, overwritten in place with another type %d frame and decoded again: error %v, fields %+v, want station %d x %d z %d (frames %x then %x)", typ, err, f3, next.StationID, next.X, next.Z, frame, nf)
+			}
+		}
 		f2, err := decodeDirect(big[len(frame):len(frame)+len(nf)], typ, lv)
 		if err != nil || f2.x != next.X || f2.station != next.StationID {
 			o.Key = "neighbour-decode"
